@@ -82,17 +82,18 @@ type uciEvent struct {
 
 // uciRun is the observable record of one execution.
 type uciRun struct {
-	p         uciParams
-	events    []uciEvent
-	sent      []string // lines handed to the input channel, in order
-	consumed  int      // how many of them the driver loop has taken
-	in        chan string
-	out       <-chan string
-	driver    *uci.Driver
-	outClosed bool
-	bestmoves int
-	readyoks  int
-	guiDone   bool
+	p             uciParams
+	events        []uciEvent
+	sent          []string // lines handed to the input channel, in order
+	consumed      int      // how many of them the driver loop has taken
+	in            chan string
+	out           <-chan string
+	driver        *uci.Driver
+	outClosed     bool
+	bestmoves     int
+	readyoks      int
+	guiDone       bool
+	lastInfoDepth int
 }
 
 func (r *uciRun) log(kind, text string) {
@@ -115,9 +116,12 @@ func (r *uciRun) observe(step int) {
 				return
 			}
 			switch {
+			case strings.HasPrefix(l, "info depth "):
+				fmt.Sscan(strings.TrimPrefix(l, "info depth "), &r.lastInfoDepth)
 			case strings.HasPrefix(l, "bestmove"):
 				r.bestmoves++
-				r.log("out", l)
+				r.log("out", fmt.Sprintf("%s @depth %d", l, r.lastInfoDepth))
+				r.lastInfoDepth = -1
 			case l == "readyok":
 				r.readyoks++
 				r.log("out", l)
@@ -157,7 +161,7 @@ func buildUCI(params json.RawMessage) explore.Scenario {
 		p.Horizon = 1500
 	}
 	return explore.Scenario{Horizon: p.Horizon, EnvSince: p.Since, TimerRelease: p.Timer, DelayThread: p.Slow, DelayUntil: p.Release + p.Until, Build: func() (func(), func(int), func(*vs.Sched) explore.Outcome) {
-		r := &uciRun{p: p}
+		r := &uciRun{p: p, lastInfoDepth: -1}
 		main := func() {
 			ctx := context.Background()
 			e, opts := newEngine(ctx, p)
@@ -244,32 +248,77 @@ type goWindow struct {
 	game     *ref.Game // position last set up before the go (nil: unknown / malformed)
 	answers  []string
 	answerAt []int
+	depths   []int // depth of the info line that preceded each answer (-1: none)
+	seq      int   // index of the go in the sequence of consumed commands
+	stopped  bool  // a stop was received while this go was the latest one
 }
 
+// windows attributes every bestmove to a go. The instant at which a superseding command takes
+// effect lies somewhere inside its handler and cannot be seen from outside, so a bestmove may
+// still answer an earlier, unanswered go until the loop has demonstrably finished handling a
+// superseding command (= it has taken a further command). A bestmove goes to the earliest go
+// that is still open in that sense and for whose position it is a legal move; one that fits no
+// open go is a problem (stale, duplicate or unsolicited).
 func (r *uciRun) windows() ([]*goWindow, []string) {
 	var ws []*goWindow
 	var problems []string
 	var game *ref.Game
 	game, _ = ref.GameFromFEN(startFEN)
+	var consumed []string
 	for _, e := range r.events {
 		switch e.Kind {
 		case "consumed":
+			consumed = append(consumed, e.Text)
 			switch {
 			case strings.HasPrefix(e.Text, "position"):
 				game = gameOf(e.Text)
 			case strings.HasPrefix(e.Text, "go"):
-				ws = append(ws, &goWindow{line: e.Text, step: e.Step, game: game})
+				ws = append(ws, &goWindow{line: e.Text, step: e.Step, game: game, seq: len(consumed) - 1})
+			case e.Text == "stop":
+				if len(ws) > 0 {
+					ws[len(ws)-1].stopped = true
+				}
 			}
 		case "out":
-			if strings.HasPrefix(e.Text, "bestmove") {
-				if len(ws) == 0 {
-					problems = append(problems, fmt.Sprintf("%s at step %d before any go was received", e.Text, e.Step))
+			if !strings.HasPrefix(e.Text, "bestmove") {
+				continue
+			}
+			mv := strings.Fields(e.Text)[1]
+			depth := -1
+			if i := strings.Index(e.Text, "@depth "); i >= 0 {
+				fmt.Sscan(e.Text[i+7:], &depth)
+			}
+			if len(ws) == 0 {
+				problems = append(problems, fmt.Sprintf("bestmove %s at step %d before any go was received", mv, e.Step))
+				continue
+			}
+			var target *goWindow
+			for _, w := range ws {
+				if len(w.answers) > 0 {
 					continue
 				}
-				w := ws[len(ws)-1]
-				w.answers = append(w.answers, strings.TrimPrefix(e.Text, "bestmove "))
-				w.answerAt = append(w.answerAt, e.Step)
+				// surely superseded: a superseding command after w, and a further command after that one
+				superseded := false
+				for i := w.seq + 1; i < len(consumed) && !superseded; i++ {
+					if strings.HasPrefix(consumed[i], "position") || strings.HasPrefix(consumed[i], "go") || consumed[i] == "ucinewgame" {
+						superseded = i+1 < len(consumed)
+					}
+				}
+				if superseded {
+					continue
+				}
+				if ok, _ := legalAnswer(w.game, mv); !ok && mv != "0000" {
+					continue
+				}
+				target = w
+				break
 			}
+			if target == nil {
+				target = ws[len(ws)-1] // fits no open go: shows up there as a second or an illegal answer
+			}
+			target.answers = append(target.answers, mv)
+			target.answerAt = append(target.answerAt, e.Step)
+			target.depths = append(target.depths, depth)
 		}
 	}
 	return ws, problems
@@ -385,6 +434,14 @@ func (r *uciRun) verdictC16(s *vs.Sched) explore.Outcome {
 	for i, w := range ws {
 		if len(w.answers) > 1 {
 			o.Violation, o.Msg = "C16/two-bestmoves "+w.line, fmt.Sprintf("'%s' was answered %d times: %v (script: %s)", w.line, len(w.answers), w.answers, r.script())
+			return o
+		}
+		// a plain `go depth N` that nobody stopped can only end by completing depth N: an answer from a
+		// shallower iteration means the search was cut short by a superseding command and answered anyway
+		var n int
+		if _, err := fmt.Sscanf(w.line, "go depth %d", &n); err == nil && len(strings.Fields(w.line)) == 3 && !w.stopped && len(w.answers) == 1 && w.depths[0] >= 0 && w.depths[0] < n && w.game != nil && len(w.game.Cur().Legal()) > 0 {
+			o.Violation = fmt.Sprintf("C16/superseded-search-answered go#%d", i+1)
+			o.Msg = fmt.Sprintf("'%s' (go #%d) was answered from depth %d although nobody stopped it: the search was cut short by a superseding command and its result was emitted anyway (script: %s)", w.line, i+1, w.depths[0], r.script())
 			return o
 		}
 		for _, a := range w.answers {
